@@ -460,6 +460,9 @@ impl<'a> UserModel<'a> {
                     .worksheet(ext_sheet)?
                     .cell(ext_row, ext_col)
                     .cloned();
+                let old_style = self
+                    .model
+                    .get_cell_style_or_none(ext_sheet, ext_row, ext_col)?;
                 self.model
                     .set_user_input(ext_sheet, ext_row, ext_col, new_formula.clone())?;
                 diff_list.push(Diff::SetCellValue {
@@ -469,6 +472,24 @@ impl<'a> UserModel<'a> {
                     new_value: new_formula,
                     old_value: Box::new(old_cell),
                 });
+                // Only the references of this formula change. Typing a formula in can pick a
+                // number format from the cells it reads: the cell keeps the style it had.
+                let new_style = self
+                    .model
+                    .get_cell_style_or_none(ext_sheet, ext_row, ext_col)?;
+                if let Some(style) = old_style {
+                    if new_style.as_ref() != Some(&style) {
+                        self.model
+                            .set_cell_style(ext_sheet, ext_row, ext_col, &style)?;
+                        diff_list.push(Diff::SetCellStyle {
+                            sheet: ext_sheet,
+                            row: ext_row,
+                            column: ext_col,
+                            old_value: Box::new(new_style),
+                            new_value: Box::new(style),
+                        });
+                    }
+                }
             }
             // Update defined names whose references land inside the moved area.
             let dn_updates = self.model.get_defined_name_updates_for_cut(
